@@ -637,7 +637,9 @@ func c14FloatKeyPairs(rng *RNG, o *Out, n int) {
 }
 
 func runC14(tier string, seed uint64, o *Out) error {
-	rng := NewRNG(seed)
+	// rng.go seeds with seed*gamma and steps by gamma: the stream of seed s+1 is the stream of seed s shifted by
+	// one draw (the generated cases of seeds 1, 2, 3 were almost the same).  Spread the seeds first.
+	rng := NewRNG(seed*0x2545F4914F6CDD1D + 0xC14)
 	nk, nq := 3000, 1600
 	if tier == "thorough" {
 		nk, nq = 60000, 30000
@@ -723,6 +725,10 @@ func runC14(tier string, seed uint64, o *Out) error {
 			}
 		}
 		o.Count(fmt.Sprintf("rows_%d0s", len(jobs[i].rows)/10))
+	}
+	// second family: several select items, general wrappers, WHERE combining a column test and an analytic call
+	if err := runC14M(tier, rng, o); err != nil {
+		return err
 	}
 	// key lines last: the driver reports only the first 200 bad lines, and the query lines are the ones the
 	// declarative checker can turn into a concrete failing input
